@@ -9,6 +9,7 @@ flat model emits for the same tree (`formPairs_flatten`).
 -/
 import Proofs.Lemmas.C12FormControls
 import Proofs.Lemmas.C12FormTotal
+import Proofs.Lemmas.C12FormGen
 import Proofs.Lemmas.C12FormFlat
 namespace Flatland.C12.Proofs
 open Flatland.Markup Flatland.C12 Flatland.C19.Proofs
@@ -29,7 +30,7 @@ theorem filter_eq_single (lits : List Str) (u : Str) (hnd : lits.Nodup) (hu : u 
         simp only [beq_iff_eq] at hxl
         subst hxl
         exact hnd.1 hx
-      simp [List.filter_cons, this]
+      simp [this]
     · have hu' : u ∈ ls := by
         rcases List.mem_cons.mp hu with h | h
         · exact absurd h.symm hl
@@ -226,93 +227,199 @@ open Flatland.Markup Flatland.C12 Flatland.C19.Proofs
 
 /-! ### the form does render (generator with default settings) -/
 
+/-- a way of making the tag calls that succeeds whenever the transforms do -/
+def SeesAll (T : Tables) (ctx : Ctx) (see : Str → Bind → Attrs → Except PyErr Seen) : Prop :=
+  ∀ tag b kw, Renders T ctx tag b kw → kwStable kw → ∃ s, see tag b kw = .ok s
+
+theorem seesAll_seenOf (T : Tables) (ctx : Ctx) : SeesAll T ctx (seenOf T ctx) := fun _ _ _ h _ => h.seen
+
+theorem seesAll_seenVia (T : Tables) (order : List Str) (g : Gen) (ho : OrderedSet g.ctx) :
+    SeesAll T g.ctx (seenVia T order g) := fun _ _ _ h hk => seenVia_of_renders hk h ho
+
 theorem scalar_renders (T : Tables) (ctx : Ctx) (hT : TablesOK T) (hL : Live T ctx) (hQ : Quiet T ctx)
+    (see : Str → Bind → Attrs → Except PyErr Seen) (hsee : SeesAll T ctx see)
     (b : Bind) (hkind : ∀ s ms, b.kind ≠ .array s ms) (u : Str) (w : ScalarWidget) (ex : List Attrs)
     (hname : b.flatName ≠ []) (hw : widgetOk u w = true) (hex : ex.all extraOk = true) :
-    ∃ ps, browserPost (seenOf T ctx) (scalarControls b w ex) = .ok ps := by
+    ∃ ps, browserPost see (scalarControls b w ex) = .ok ps := by
   cases w with
   | input ty =>
-    obtain ⟨s, hs⟩ := input_renders T ctx hT hL hQ b ty _ (extraOk_headD hex) hw hname
+    obtain ⟨s, hs⟩ := hsee _ _ _ (input_renders T ctx hT hL hQ b ty _ (extraOk_headD hex) hw hname)
+      (kwStable_kwInput ty _ (extraOk_headD hex))
     exact postsAll_single_ok ⟨_, posts_single_ok hs⟩
   | textarea =>
-    obtain ⟨s, hs⟩ := textarea_renders T ctx hT hL hQ b _ (extraOk_headD hex) hname
+    obtain ⟨s, hs⟩ := hsee _ _ _ (textarea_renders T ctx hT hL hQ b _ (extraOk_headD hex) hname)
+      (kwStable_extra (extraOk_headD hex))
     exact postsAll_single_ok ⟨_, posts_single_ok hs⟩
   | button =>
-    obtain ⟨s, hs⟩ := button_renders T ctx hT hL hQ b _ (extraOk_headD hex) hname
+    obtain ⟨s, hs⟩ := hsee _ _ _ (button_renders T ctx hT hL hQ b _ (extraOk_headD hex) hname)
+      (kwStable_extra (extraOk_headD hex))
     exact postsAll_single_ok ⟨_, posts_single_ok hs⟩
   | radios ty lits =>
     simp only [widgetOk, Bool.and_eq_true] at hw
-    exact checkGroup_renders (seenOf T ctx) b ty
-      (fun l extra hx => check_renders T ctx hT hL hQ b ty l extra hx hw.1 hname _ (matches_scalar T b hkind l)) lits ex hex
+    exact checkGroup_renders see b ty
+      (fun l extra hx => hsee _ _ _
+        (check_renders T ctx hT hL hQ b ty l extra hx hw.1 hname _ (matches_scalar T b hkind l))
+        (kwStable_kwCheck ty l extra hx)) lits ex hex
   | select lits =>
-    exact postsAll_single_ok (select_group_renders (seenOf T ctx) b []
-      (select_renders T ctx hT hL hQ b [] rfl rfl rfl (fun _ _ => rfl) hname)
-      (fun l extra hx => option_renders T ctx hT hL hQ b l extra hx _ (matches_scalar T b hkind l)) lits ex hex)
+    exact postsAll_single_ok (select_group_renders see b []
+      (hsee _ _ _ (select_renders T ctx hT hL hQ b [] rfl rfl rfl (fun _ _ => rfl) hname) kwStable_nil)
+      (fun l extra hx => hsee _ _ _ (option_renders T ctx hT hL hQ b l extra hx _ (matches_scalar T b hkind l))
+        (kwStable_kwOption l extra hx)) lits ex hex)
 
 theorem array_renders (T : Tables) (ctx : Ctx) (hT : TablesOK T) (hL : Live T ctx) (hQ : Quiet T ctx)
+    (see : Str → Bind → Attrs → Except PyErr Seen) (hsee : SeesAll T ctx see)
     (b : Bind) (strip : Bool) (bms : List (Option Str)) (hkind : b.kind = .array strip bms) (ms : List Str)
     (w : ArrayWidget) (ex : List Attrs) (hname : b.flatName ≠ []) (hex : ex.all extraOk = true) :
-    ∃ ps, browserPost (seenOf T ctx) (arrayControls b ms w ex) = .ok ps := by
+    ∃ ps, browserPost see (arrayControls b ms w ex) = .ok ps := by
   have hm : ∀ l, b.matches T (some (.text l)) = .ok (bms.contains (some (if strip then T.strip l else l))) := by
     intro l; unfold Bind.matches; rw [hkind]; rfl
   cases w with
   | checkboxes =>
-    exact checkGroup_renders (seenOf T ctx) b sCheckbox
-      (fun l extra hx => check_renders T ctx hT hL hQ b sCheckbox l extra hx (by decide) hname _ (hm l)) ms ex hex
+    exact checkGroup_renders see b sCheckbox
+      (fun l extra hx => hsee _ _ _ (check_renders T ctx hT hL hQ b sCheckbox l extra hx (by decide) hname _ (hm l))
+        (kwStable_kwCheck sCheckbox l extra hx)) ms ex hex
   | selectMultiple =>
-    exact postsAll_single_ok (select_group_renders (seenOf T ctx) b [(sMultiple, .text sMultiple)]
-      (select_renders T ctx hT hL hQ b _ (by decide) (by decide) (by decide) (by decide) hname)
-      (fun l extra hx => option_renders T ctx hT hL hQ b l extra hx _ (hm l)) ms ex hex)
+    exact postsAll_single_ok (select_group_renders see b [(sMultiple, .text sMultiple)]
+      (hsee _ _ _ (select_renders T ctx hT hL hQ b _ (by decide) (by decide) (by decide) (by decide) hname)
+        kwStable_multiple)
+      (fun l extra hx => hsee _ _ _ (option_renders T ctx hT hL hQ b l extra hx _ (hm l))
+        (kwStable_kwOption l extra hx)) ms ex hex)
 
 mutual
-theorem form_renders_at (T : Tables) (ctx : Ctx) (hT : TablesOK T) (hL : Live T ctx) (hQ : Quiet T ctx) :
+theorem form_renders_at (T : Tables) (ctx : Ctx) (hT : TablesOK T) (hL : Live T ctx) (hQ : Quiet T ctx)
+    (see : Str → Bind → Attrs → Except PyErr Seen) (hsee : SeesAll T ctx see) :
     ∀ (t : FormTree) (pre : List (Option Str)), formOk T pre t = true →
-      ∃ ps, browserPost (seenOf T ctx) (renderForm pre t) = .ok ps
+      ∃ ps, browserPost see (renderForm pre t) = .ok ps
   | .text n u w ex, pre, hok => by
     simp only [formOk, Bool.and_eq_true] at hok
     simp only [renderForm]
-    exact scalar_renders T ctx hT hL hQ (textBind pre n u) (by intro s ms hk; cases hk) u w ex
+    exact scalar_renders T ctx hT hL hQ see hsee (textBind pre n u) (by intro s ms hk; cases hk) u w ex
       (ne_nil_of_isEmpty hok.1.1) hok.1.2 hok.2
   | .bool n tru u ex, pre, hok => by
     simp only [formOk, Bool.and_eq_true] at hok
     simp only [renderForm]
-    obtain ⟨s, hs⟩ := boolbox_renders T ctx hT hL hQ (boolBind pre n tru u) tru _ (extraOk_headD hok.2)
-      (ne_nil_of_isEmpty hok.1) rfl
+    obtain ⟨s, hs⟩ := hsee _ _ _ (boolbox_renders T ctx hT hL hQ (boolBind pre n tru u) tru _ (extraOk_headD hok.2)
+      (ne_nil_of_isEmpty hok.1) rfl) (kwStable_kwInput (some sCheckbox) _ (extraOk_headD hok.2))
     exact postsAll_single_ok ⟨_, posts_single_ok hs⟩
   | .array n strip ms w ex, pre, hok => by
     simp only [formOk, Bool.and_eq_true] at hok
     simp only [renderForm]
-    exact array_renders T ctx hT hL hQ (arrayBind pre n strip ms []) strip _ rfl ms w ex (ne_nil_of_isEmpty hok.1.1) hok.2
+    exact array_renders T ctx hT hL hQ see hsee (arrayBind pre n strip ms []) strip _ rfl ms w ex
+      (ne_nil_of_isEmpty hok.1.1) hok.2
   | .joined n u ms ty ex, pre, hok => by
     simp only [formOk, Bool.and_eq_true] at hok
     simp only [renderForm]
-    obtain ⟨s, hs⟩ := input_renders T ctx hT hL hQ (arrayBind pre n true ms u) ty _ (extraOk_headD hok.2) hok.1.2
-      (ne_nil_of_isEmpty hok.1.1)
+    obtain ⟨s, hs⟩ := hsee _ _ _ (input_renders T ctx hT hL hQ (arrayBind pre n true ms u) ty _ (extraOk_headD hok.2)
+      hok.1.2 (ne_nil_of_isEmpty hok.1.1)) (kwStable_kwInput ty _ (extraOk_headD hok.2))
     exact postsAll_single_ok ⟨_, posts_single_ok hs⟩
   | .dict n fields, pre, hok => by
     simp only [formOk] at hok
     simp only [renderForm]
-    exact fields_render_at T ctx hT hL hQ fields (pre ++ [n]) hok
+    exact fields_render_at T ctx hT hL hQ see hsee fields (pre ++ [n]) hok
   | .list n members, pre, hok => by
     simp only [formOk] at hok
     simp only [renderForm]
-    exact slots_render_at T ctx hT hL hQ members (pre ++ [n]) 0 hok
-theorem fields_render_at (T : Tables) (ctx : Ctx) (hT : TablesOK T) (hL : Live T ctx) (hQ : Quiet T ctx) :
+    exact slots_render_at T ctx hT hL hQ see hsee members (pre ++ [n]) 0 hok
+theorem fields_render_at (T : Tables) (ctx : Ctx) (hT : TablesOK T) (hL : Live T ctx) (hQ : Quiet T ctx)
+    (see : Str → Bind → Attrs → Except PyErr Seen) (hsee : SeesAll T ctx see) :
     ∀ (ts : List FormTree) (pre : List (Option Str)), fieldsOk T pre ts = true →
-      ∃ ps, browserPost (seenOf T ctx) (renderFields pre ts) = .ok ps
+      ∃ ps, browserPost see (renderFields pre ts) = .ok ps
   | [], _, _ => ⟨[], rfl⟩
   | t :: ts, pre, hok => by
     simp only [fieldsOk, Bool.and_eq_true] at hok
     simp only [renderFields]
-    exact postsAll_append_ok (form_renders_at T ctx hT hL hQ t pre hok.1) (fields_render_at T ctx hT hL hQ ts pre hok.2)
-theorem slots_render_at (T : Tables) (ctx : Ctx) (hT : TablesOK T) (hL : Live T ctx) (hQ : Quiet T ctx) :
+    exact postsAll_append_ok (form_renders_at T ctx hT hL hQ see hsee t pre hok.1)
+      (fields_render_at T ctx hT hL hQ see hsee ts pre hok.2)
+theorem slots_render_at (T : Tables) (ctx : Ctx) (hT : TablesOK T) (hL : Live T ctx) (hQ : Quiet T ctx)
+    (see : Str → Bind → Attrs → Except PyErr Seen) (hsee : SeesAll T ctx see) :
     ∀ (ts : List FormTree) (pre : List (Option Str)) (i : Nat), slotsOk T pre i ts = true →
-      ∃ ps, browserPost (seenOf T ctx) (renderSlots pre i ts) = .ok ps
+      ∃ ps, browserPost see (renderSlots pre i ts) = .ok ps
   | [], _, _, _ => ⟨[], rfl⟩
   | t :: ts, pre, i, hok => by
     simp only [slotsOk, Bool.and_eq_true] at hok
     simp only [renderSlots]
-    exact postsAll_append_ok (form_renders_at T ctx hT hL hQ t _ hok.1) (slots_render_at T ctx hT hL hQ ts pre (i + 1) hok.2)
+    exact postsAll_append_ok (form_renders_at T ctx hT hL hQ see hsee t _ hok.1)
+      (slots_render_at T ctx hT hL hQ see hsee ts pre (i + 1) hok.2)
+end
+
+/-! ### the keyword arguments of the whole form are stable -/
+
+theorem checkGroup_stable (b : Bind) (ty : Str) : ∀ (lits : List Str) (es : List Attrs), es.all extraOk = true →
+    ∀ c ∈ checkGroup b ty lits es, ControlStable c
+  | [], _, _, c, hc => by simp [checkGroup] at hc
+  | l :: ls, es, hes, c, hc => by
+    simp only [checkGroup, List.mem_cons] at hc
+    rcases hc with rfl | hc
+    · exact kwStable_kwCheck ty l _ (extraOk_headD hes)
+    · exact checkGroup_stable b ty ls es.tail (extraOk_tail hes) c hc
+
+theorem optionGroup_stable : ∀ (lits : List Str) (es : List Attrs), es.all extraOk = true →
+    ∀ o ∈ optionGroup lits es, kwStable o
+  | [], _, _, o, ho => by simp [optionGroup] at ho
+  | l :: ls, es, hes, o, ho => by
+    simp only [optionGroup, List.mem_cons] at ho
+    rcases ho with rfl | ho
+    · exact kwStable_kwOption l _ (extraOk_headD hes)
+    · exact optionGroup_stable ls es.tail (extraOk_tail hes) o ho
+
+mutual
+theorem renderForm_stable (T : Tables) : ∀ (t : FormTree) (pre : List (Option Str)), formOk T pre t = true →
+    ∀ c ∈ renderForm pre t, ControlStable c
+  | .text n u w ex, pre, hok, c, hc => by
+    simp only [formOk, Bool.and_eq_true] at hok
+    simp only [renderForm] at hc
+    cases w with
+    | input ty => simp only [scalarControls, List.mem_singleton] at hc; subst hc; exact kwStable_kwInput ty _ (extraOk_headD hok.2)
+    | textarea => simp only [scalarControls, List.mem_singleton] at hc; subst hc; exact kwStable_extra (extraOk_headD hok.2)
+    | button => simp only [scalarControls, List.mem_singleton] at hc; subst hc; exact kwStable_extra (extraOk_headD hok.2)
+    | radios ty lits => exact checkGroup_stable _ ty lits ex hok.2 c hc
+    | select lits =>
+      simp only [scalarControls, List.mem_singleton] at hc; subst hc
+      exact ⟨kwStable_nil, optionGroup_stable lits ex hok.2⟩
+  | .bool n tru u ex, pre, hok, c, hc => by
+    simp only [formOk, Bool.and_eq_true] at hok
+    simp only [renderForm, List.mem_singleton] at hc
+    subst hc
+    exact kwStable_kwInput (some sCheckbox) _ (extraOk_headD hok.2)
+  | .array n strip ms w ex, pre, hok, c, hc => by
+    simp only [formOk, Bool.and_eq_true] at hok
+    simp only [renderForm] at hc
+    cases w with
+    | checkboxes => exact checkGroup_stable _ sCheckbox ms ex hok.2 c hc
+    | selectMultiple =>
+      simp only [arrayControls, List.mem_singleton] at hc; subst hc
+      exact ⟨kwStable_multiple, optionGroup_stable ms ex hok.2⟩
+  | .joined n u ms ty ex, pre, hok, c, hc => by
+    simp only [formOk, Bool.and_eq_true] at hok
+    simp only [renderForm, List.mem_singleton] at hc
+    subst hc
+    exact kwStable_kwInput ty _ (extraOk_headD hok.2)
+  | .dict n fields, pre, hok, c, hc => by
+    simp only [formOk] at hok
+    simp only [renderForm] at hc
+    exact renderFields_stable T fields (pre ++ [n]) hok c hc
+  | .list n members, pre, hok, c, hc => by
+    simp only [formOk] at hok
+    simp only [renderForm] at hc
+    exact renderSlots_stable T members (pre ++ [n]) 0 hok c hc
+theorem renderFields_stable (T : Tables) : ∀ (ts : List FormTree) (pre : List (Option Str)), fieldsOk T pre ts = true →
+    ∀ c ∈ renderFields pre ts, ControlStable c
+  | [], _, _, c, hc => by simp [renderFields] at hc
+  | t :: ts, pre, hok, c, hc => by
+    simp only [fieldsOk, Bool.and_eq_true] at hok
+    simp only [renderFields, List.mem_append] at hc
+    rcases hc with h | h
+    · exact renderForm_stable T t pre hok.1 c h
+    · exact renderFields_stable T ts pre hok.2 c h
+theorem renderSlots_stable (T : Tables) : ∀ (ts : List FormTree) (pre : List (Option Str)) (i : Nat),
+    slotsOk T pre i ts = true → ∀ c ∈ renderSlots pre i ts, ControlStable c
+  | [], _, _, _, c, hc => by simp [renderSlots] at hc
+  | t :: ts, pre, i, hok, c, hc => by
+    simp only [slotsOk, Bool.and_eq_true] at hok
+    simp only [renderSlots, List.mem_append] at hc
+    rcases hc with h | h
+    · exact renderForm_stable T t _ hok.1 c h
+    · exact renderSlots_stable T ts pre (i + 1) hok.2 c h
 end
 
 /-- FORM ROUND TRIP, total form: on a generator whose context has name/value generation on and the
@@ -321,13 +428,36 @@ end
 theorem form_roundtrip_total (T : Tables) (ctx : Ctx) (hT : TablesOK T) (hL : Live T ctx) (hQ : Quiet T ctx)
     (t : FormTree) (hok : formOk T [] t = true) :
     browserPost (seenOf T ctx) (renderForm [] t) = .ok (formPairs [] t) := by
-  obtain ⟨ps, h⟩ := form_renders_at T ctx hT hL hQ t [] hok
+  obtain ⟨ps, h⟩ := form_renders_at T ctx hT hL hQ _ (seesAll_seenOf T ctx) t [] hok
   rw [h, form_roundtrip T ctx hT hL t hok ps h]
 
 /-- … in particular on `Generator()` with the tables of the current source -/
 theorem form_roundtrip_fresh (t : FormTree) (hok : formOk Tables.current [] t = true) :
     browserPost (seenOf Tables.current freshGen.ctx) (renderForm [] t) = .ok (formPairs [] t) :=
   form_roundtrip_total _ _ tablesOK_current fresh_live fresh_quiet t hok
+
+/-! ### the same through `prepareTag`, the way the runner makes the tag calls -/
+
+/-- FORM ROUND TRIP on a generator: every tag call made as `gen.<tag>(bind, **kwargs)` (`prepareTag`:
+    keyword arguments re-keyed, attributes put in output order, contents printed and parsed back) -/
+theorem form_roundtrip_generator (T : Tables) (order : List Str) (g : Gen) (hT : TablesOK T) (hL : Live T g.ctx)
+    (t : FormTree) (hok : formOk T [] t = true) (ps : List Pair)
+    (h : browserPost (seenVia T order g) (renderForm [] t) = .ok ps) : ps = formPairs [] t :=
+  form_roundtrip T g.ctx hT hL t hok ps
+    (browserPost_via_of T order g _ (renderForm_stable T t [] hok) ps h)
+
+theorem form_roundtrip_generator_total (T : Tables) (order : List Str) (g : Gen) (hT : TablesOK T) (hL : Live T g.ctx)
+    (hQ : Quiet T g.ctx) (ho : OrderedSet g.ctx) (t : FormTree) (hok : formOk T [] t = true) :
+    browserPost (seenVia T order g) (renderForm [] t) = .ok (formPairs [] t) := by
+  obtain ⟨ps, h⟩ := form_renders_at T g.ctx hT hL hQ _ (seesAll_seenVia T order g ho) t [] hok
+  rw [h, form_roundtrip_generator T order g hT hL t hok ps h]
+
+/-- … on `Generator()` with the tables and the attribute order of the current source: every form
+    renders, and a browser submits exactly the element's own flat pairs a form can carry -/
+theorem form_roundtrip_fresh_generator (t : FormTree) (hok : formOk Tables.current [] t = true) :
+    browserPost (seenVia Tables.current Flatland.Generated.C11.staticAttributeOrder freshGen) (renderForm [] t) =
+      .ok (formPairs [] t) :=
+  form_roundtrip_generator_total _ _ _ tablesOK_current fresh_live fresh_quiet fresh_ordered t hok
 
 end Flatland.C12.Proofs
 
